@@ -56,9 +56,11 @@ func runC07(c *an.Check) {
 	c.Rule("C07.R6", "a durable write lies between the state transition and the execution of the broadcast action")
 	c.Rule("C07.R7", "a FailOnrecover state at or after the broadcast must not lead, through the Event_ActionFailed that Recover injects, to a terminal that is no claim")
 	c.Rule("C07.R8", "register-or-rollback: a dedupe entry that a CSV watch registration tests and sets survives a return only if the goroutine that deletes it was started")
+	c.Rule("C07.R9", "a CSV watch, once registered, stays registered: no watcher stores a guarded registration list from a copy taken in an earlier critical section (lost update)")
 	if !needEffects(c, fxOpenTx, fxWaitCsv, fxCsvSpend, fxCoopSpend, fxPayNotifier, fxStoreUpdate) {
 		return
 	}
+	c19StaleWriteBacks(c, "C07.R9", "txwatcher", "electrum", "lwk", "lnd")
 	w := c.W
 	ts := tables(c)
 	if ts == nil {
